@@ -381,6 +381,13 @@ class C15Runner:
                   connections=[{"src": "mem", "dst": "xbar", "src_range": [[0, 2]], "allow_multi": True},
                                {"src": "mem_ctrl", "dst": "xbar"}, {"src": "host", "dst": "xbar"}])
         cases.append(("prefix-names", pn))
+        # long names: link signals of 100 and more characters are spelled out like any other
+        ln = gen_desc.gen_mesh(rng, "XY", "axi", m=2, n=2, sides=[], partial_local=False)
+        if ln:
+            ren = {e["name"]: "compute_cluster_with_a_rather_long_name_" + e["name"] for e in ln["endpoints"]}
+            ren.update({r["name"]: "network_router_of_the_main_mesh_" + r["name"] for r in ln["routers"]})
+            gen_desc.rename_nodes(ln, ren)
+            cases.append(("long-names", ln))
         # a network without a name: the generated names do not borrow one from anywhere else
         en = gen_desc.gen_star(rng, "ID", "axi", k=3)
         if en:
